@@ -147,11 +147,15 @@ pub(crate) mod verif_bla {
     }
     #[kani::proof]
     #[kani::unwind(3)]
+    #[kani::stub(crate::core::system_metric::get_total_memory_size, crate::verif_support::any_total_memory)]
+    #[kani::stub(std::backtrace::Backtrace::capture, std::backtrace::Backtrace::disabled)]
     fn bla_count_with_time_2x512() {
         body_count_with_time::<2>(9);
     }
     #[kani::proof]
     #[kani::unwind(4)]
+    #[kani::stub(crate::core::system_metric::get_total_memory_size, crate::verif_support::any_total_memory)]
+    #[kani::stub(std::backtrace::Backtrace::capture, std::backtrace::Backtrace::disabled)]
     fn bla_count_with_time_3x256() {
         body_count_with_time::<3>(8);
     }
